@@ -241,6 +241,13 @@ def rule_shard_index(ctx, R):
             nm = c.name
             if nm in WHOLE:
                 continue
+            if nm in ('first', 'last', 'first_mut', 'last_mut', 'split_first', 'split_last', 'pop', 'split_at',
+                      'split_first_mut', 'split_last_mut', 'choose', 'nth', 'truncate', 'retain'):
+                n += 1
+                ctx.fail(R, b, '%s-selected-by:%s' % (which, nm), '`%s` is accessed through `%s`, which selects a '
+                         'shard independently of the track id (only id %% num_shards or whole iteration is allowed)' %
+                         (which, nm), c.ln)
+                continue
             if nm in ('get', 'get_mut', 'index', 'index_mut', 'get_unchecked', 'get_unchecked_mut', 'swap_remove',
                       'remove'):
                 idx = eb.operand(c.args[1])
@@ -248,6 +255,8 @@ def rule_shard_index(ctx, R):
                 n += 1
                 ctx.check(ok, R, b, '%s-indexed-by:%s' % (which, nm), 'index = %r' % idx,
                           '`%s` is indexed by %r, not by id %% num_shards' % (which, idx), c.ln)
+            else:
+                ctx.note(R, 'unclassified use of `%s` through `%s` in %s at %s (not armed)' % (which, nm, b.npath, c.ln))
     # worker i owns store i
     w = ctx.anchor(R, WORKER)
     if w is not None:
@@ -314,4 +323,119 @@ def rule_merge_routing(ctx, R):
                   'the Merge command is sent through %r, not executors[get_executor(dest_id)]' % recv, c.ln)
     if not sends:
         ctx.fail(R, b, 'merge:send', 'ANCHOR-MISSING: no send of Commands::Merge')
+    return n
+
+
+def loop_exit_edges(body, header):
+    blks = body.loops().get(header, set())
+    out = []
+    for x in blks:
+        for s in body.succ()[x]:
+            if s not in blks:
+                out.append((x, s))
+    return out
+
+
+def rule_consumers(ctx, R):
+    """the caller side of a distance query consumes exactly `count` chunks: blocking recv, no early exit"""
+    F = ctx.F
+    n = 0
+    ga = ctx.anchor(R, 'track::store::track_distance::TrackDistanceResponse::get_all')
+    if ga is not None:
+        eb = ExprBuilder(ga)
+        recvs = ga.find_calls(RECV)
+        other = [c for c in ga.find_calls() if c.callee.startswith('crossbeam::crossbeam_channel::Receiver::') and
+                 c.name in ('try_recv', 'recv_timeout', 'recv_deadline', 'try_iter')]
+        n += 1
+        ctx.check(len(recvs) == 1 and not other, R, ga, 'get_all:blocking-recv', 'one blocking recv per expected chunk',
+                  'get_all does not use one blocking recv per expected chunk (recv sites: %d, non-blocking/timeout '
+                  'receives: %s): late chunks are dropped' % (len(recvs), [c.name for c in other]))
+        for c in recvs:
+            its = loops_iterating(ga, c.bb)
+            rng = [e for _, e in its if e.has_call('count') or any(
+                x.kind == 'agg' and x.name.endswith('Range::Range') for x in e.walk())]
+            n += 1
+            ok = len(its) == 1 and bool(rng)
+            ctx.check(ok, R, ga, 'get_all:loop-over-count', 'recv inside `for _ in 0..self.count()`',
+                      'the receive is not executed once per 0..count (%s)' % [repr(e) for _, e in its], c.ln)
+            for h, blks in ga.loops().items():
+                if c.bb in blks:
+                    ex = loop_exit_edges(ga, h)
+                    n += 1
+                    # the only exit is the exhaustion of the range iterator
+                    okx = len(ex) == 1
+                    if okx:
+                        t = ga.blocks[ex[0][0]]['t']
+                        okx = t['k'] == 'switch' and ExprBuilder(ga).operand(t['discr']).kind == 'discr'
+                    ctx.check(okx, R, ga, 'get_all:single-loop-exit', 'loop leaves only when the range is exhausted',
+                              'the receive loop can be left early through %s: remaining chunks are never consumed' % ex)
+    for it in ('TrackDistanceOkIterator', 'TrackDistanceErrIterator'):
+        path = '<track::store::track_distance::%s as std::iter::Iterator>::next' % it
+        b = ctx.anchor(R, path)
+        if b is None:
+            continue
+        eb = ExprBuilder(b)
+        recvs = b.find_calls(RECV)
+        other = [c for c in b.find_calls() if c.callee.startswith('crossbeam::crossbeam_channel::Receiver::') and
+                 c.name in ('try_recv', 'recv_timeout', 'recv_deadline', 'try_iter')]
+        n += 1
+        ctx.check(len(recvs) == 1 and not other, R, b, it + ':blocking-recv', '',
+                  'the chunk iterator does not use a blocking recv (%s)' % [c.name for c in other])
+        # every possibly-None result requires iterator_count == 0
+        for d in b.defs().get(0, []):
+            if d[1] not in b.live_blocks():
+                continue
+            conds = path_conditions(b, d[1])
+            zero = False
+            for k in conds:
+                cm = k.cmp()
+                if cm and cm[0] == 'Eq' and (cm[1].has_field('iterator_count') or cm[2].has_field('iterator_count')) \
+                        and any(x.kind == 'const' and x.const.get('v') == '0' for x in (cm[1], cm[2])):
+                    zero = True
+            issome = any(k.kind == 'bool' and k.truth is True and k.expr.kind == 'call' and k.expr.name.endswith(
+                'Option::is_some') for k in conds) or any(k.kind == 'discr' and k.variants == {'Some'} for k in conds)
+            kind = 'other'
+            if d[0] == 'assign':
+                rv = d[3]['rv']
+                if rv['k'] == 'agg' and rv.get('v') == 'None':
+                    kind = 'none'
+                elif rv['k'] == 'agg' and rv.get('v') == 'Some':
+                    kind = 'some'
+            n += 1
+            if kind == 'some' or issome:
+                ctx.ok(R, b, it + ':returns-element', 'element returned when present')
+            else:
+                ctx.check(zero, R, b, it + ':end-only-when-all-chunks-consumed',
+                          'iteration ends only when iterator_count == 0',
+                          'the iterator can end (or yield a possibly-empty result) while chunks are still '
+                          'outstanding: an empty partial result from one shard drops the results of the others',
+                          d[3]['ln'] if d[0] == 'assign' else d[2].ln)
+        # one decrement per receive
+        decs = []
+        for i in sorted(b.live_blocks()):
+            for si, s in enumerate(b.blocks[i]['st']):
+                if s['k'] == 'assign' and s['lhs']['p'] and isinstance(s['lhs']['p'][-1], dict) and \
+                        s['lhs']['p'][-1].get('n') == 'iterator_count':
+                    decs.append((i, si, eb._rvalue(s['rv'], (), 0, (i, si))))
+        n += 1
+        okd = len(decs) == 1 and decs[0][2].kind == 'bin' and decs[0][2].name == 'Sub' and \
+            decs[0][2].args[1].kind == 'const' and decs[0][2].args[1].const.get('v') == '1' and recvs and \
+            b.dominates(decs[0][0], recvs[0].bb)
+        ctx.check(okd, R, b, it + ':one-decrement-per-receive', 'iterator_count -= 1 before each recv',
+                  'iterator_count is not decremented exactly by one per received chunk (%s)' % [repr(d[2]) for d in decs])
+    # into_iter wiring: iterator_count = count
+    for it, src in (('TrackDistanceOk', 'TrackDistanceOkIterator'), ('TrackDistanceErr', 'TrackDistanceErrIterator')):
+        for b in F.search(r'track_distance::%s as std::iter::IntoIterator>::into_iter$' % it):
+            ctx.read(b)
+            e = ExprBuilder(b).place(0, ())
+            aggs = [x for x in e.walk() if x.kind == 'agg' and x.name.endswith(src + '::' + src)]
+            okw = False
+            if aggs:
+                fields = aggs[0].extra['fields']
+                idx = fields.index('iterator_count')
+                v = aggs[0].args[idx]
+                okw = v.has_field('count') and not any(y.kind == 'bin' for y in v.walk())
+            n += 1
+            ctx.check(okw, R, b, it + ':iterator_count=count', '', 'the iterator does not start with iterator_count = '
+                      'count (%r)' % (aggs[0].args if aggs else e))
     return n
